@@ -71,6 +71,12 @@ func main() {
 	account := func(cases []*Case, batch int, report func(c *Case, diff string)) stats {
 		var st stats
 		totalProcs += evalAll(e, cases, batch)
+		type disagreement struct {
+			c     *Case
+			diff  string
+			again *Case
+		}
+		var dis []*disagreement
 		for _, c := range cases {
 			st.cases++
 			if c.Dropped != "" || c.Out == nil {
@@ -86,21 +92,24 @@ func main() {
 				noteLevels(c.Tree, levelPairs)
 			}
 			if diff != "" {
-				// a disagreement must reproduce when the case is run again, alone, each printing
-				// in its own process: the property is deterministic, the environment is not
 				again := *c
 				again.Out, again.Dropped = nil, ""
-				totalProcs += int64(len(halves(c)))
-				evalSingle(e, 0, &again)
-				d2, _, _ := verdict(&again)
-				if again.Dropped != "" || again.Out == nil || d2 == "" {
-					st.dropped++
-					e.Inconclusive(c.Key + ": disagreement did not reproduce (" + diff + ")")
-					continue
-				}
-				st.failing++
-				report(c, diff)
+				dis = append(dis, &disagreement{c, diff, &again})
 			}
+		}
+		// a disagreement must reproduce when the case is run again, alone, each printing in its
+		// own process: the property is deterministic, the environment is not
+		lib.ParallelMap(len(dis), 0, func(i int) { evalSingle(e, i, dis[i].again) })
+		for _, d := range dis {
+			totalProcs += int64(len(halves(d.c)))
+			d2, _, _ := verdict(d.again)
+			if d.again.Dropped != "" || d.again.Out == nil || d2 == "" {
+				st.dropped++
+				e.Inconclusive(d.c.Key + ": disagreement did not reproduce (" + d.diff + ")")
+				continue
+			}
+			st.failing++
+			report(d.c, d.diff)
 		}
 		totalEval += st.evaluations
 		return st
